@@ -298,3 +298,27 @@ def local_rules(rng):
     for name, tok in rng.sample(kinds, rng.choice([2, 3])):
         out.append(sb_entry("lr/rule_%s_001.py" % name, (LOCAL_RULE % {"name": name, "tok": tok, "phase": rng.choice([1, 7, 7])}).encode()))
     return out
+
+
+def random_group_config(rng, rules):
+    """A [rule][group] section: one to three groups, preferring a group together with one of its
+    sub-groups ("case" and "case::keyword") with *conflicting* settings - the documented way to
+    switch a family off and one branch of it back on."""
+    groups = sorted({g for r in rules for g in r[8]})
+    if not groups:
+        return None
+    parents = sorted({g for g in groups if any(h.startswith(g + "::") for h in groups)})
+    out = {}
+    if parents and rng.random() < 0.7:
+        p = rng.choice(parents)
+        c = rng.choice([h for h in groups if h.startswith(p + "::")])
+        a = rng.random() < 0.5
+        out[p] = {"disable": a}
+        out[c] = {"disable": not a}
+        if "case" in c and rng.random() < 0.5:
+            out[c]["case"] = rng.choice(["upper", "lower"])
+    for g in rng.sample(groups, rng.choice([0, 1, 2])):
+        out.setdefault(g, {})[rng.choice(["disable", "fixable"])] = rng.random() < 0.5
+    items = list(out.items())
+    rng.shuffle(items)
+    return dict(items)
